@@ -465,6 +465,29 @@ class Templates:
             else:
                 self.by_stream[-1] = saved
 
+    def stream_alts_sites(self, local, _sites=()):
+        """like stream_alts, with the blocks of the assignments through which each stream reaches
+        `local` (`let x = if c { piece_a } else { piece_b }`: piece_a reaches x in the then-block)"""
+        if local is None:
+            return []
+        if local in self.by_stream:
+            return [(local, _sites)]
+        out = []
+        for d in self.b.defs().get(local, []):
+            if d[2] != "assign":
+                continue
+            r = d[3]["r"]
+            op = None
+            if r["k"] == "use":
+                op = r["op"]
+            elif r["k"] == "aggregate" and r.get("agg") == "adt" and r.get("variant") == "Some" and len(r["ops"]) == 1 and str(r.get("adt", "")).endswith("Option"):
+                op = r["ops"][0]
+            if op is not None and op["k"] in ("copy", "move") and not op["p"]["proj"]:
+                for x in self.stream_alts_sites(op["p"]["local"], _sites + (d[0],)):
+                    if x not in out:
+                        out.append(x)
+        return out
+
     def stream_alts(self, local):
         """Stream locals (built in this fn) that may flow by move into `local`."""
         if local is None:
